@@ -1,8 +1,14 @@
 import Kio.Proofs.Codec
 import Kio.Proofs.Decode
+import Kio.Proofs.ReencComb
 /-!
 Whatever the decoder returns is accepted by the encoder (C05 / C10), for *arbitrary* input
-bytes, and the re-encoding is never longer than what was consumed.
+bytes, and the re-encoding is at most three times as long as what was consumed.
+
+The statement first proposed (`bs.length < 2^35`, no condition on the defaults, conclusion
+`b'.length + rest.length ≤ bs.length`) is false in three ways; see the counterexamples at the
+end of this file (`reencodable_cex_default`, `reencodable_cex_length`) and the remark on
+`Schema.reencodable'`.
 -/
 namespace Kio
 
@@ -30,14 +36,425 @@ def Shape.taggedNullDefaults : Shape → Bool
 termination_by structural s => s
 end
 
-/-- **re-encodable**: on a coherent class, with the repaired time arithmetic, any value the
-    reader returns for any input (shorter than 2^35 bytes) is accepted by the writer, and the
-    re-encoding is at most as long as the bytes that were consumed -/
-theorem Schema.reencodable (env : Env) (ht : env.time = TimeCfg.repaired) (hfl : FloatExact)
+mutual
+/-- the (resolved) default `d` of every tagged field satisfies `d == d` in Python, i.e. contains
+    no NaN: then a tagged field that is absent on the wire is assembled to its default and is
+    omitted again by the writer (`value != default` is false), whatever the default's type -/
+def Schema.taggedDefaultsRefl (env : Env) : Schema → Bool
+  | .mk _ _ _ fs => Fields.taggedDefaultsRefl env fs
+termination_by structural s => s
+def Fields.taggedDefaultsRefl (env : Env) : List Field → Bool
+  | [] => true
+  | f :: fs => Field.taggedDefaultsRefl env f && Fields.taggedDefaultsRefl env fs
+termination_by structural l => l
+def Field.taggedDefaultsRefl (env : Env) : Field → Bool
+  | .mk m sh =>
+    (match m.tag with
+     | some _ =>
+       ((Field.taggedDefault env (.mk m sh)).toOption.getD .none).pyEq
+         ((Field.taggedDefault env (.mk m sh)).toOption.getD .none)
+     | none => true)
+    && Shape.taggedDefaultsRefl env sh
+termination_by structural f => f
+def Shape.taggedDefaultsRefl (env : Env) : Shape → Bool
+  | .ent s _ => Schema.taggedDefaultsRefl env s
+  | .entArr s _ => Schema.taggedDefaultsRefl env s
+  | _ => true
+termination_by structural s => s
+end
+
+/-! ### membership forms of the list predicates -/
+
+theorem Fields.taggedNullDefaults_mem {fs : List Field}
+    (h : Fields.taggedNullDefaults fs = true) : ∀ f ∈ fs, Field.taggedNullDefaults f = true := by
+  induction fs with
+  | nil => intro f hf; cases hf
+  | cons g fs ih =>
+    simp only [Fields.taggedNullDefaults, Bool.and_eq_true] at h
+    intro f hf
+    rcases List.mem_cons.mp hf with rfl | hf
+    · exact h.1
+    · exact ih h.2 f hf
+
+theorem Fields.taggedDefaultsRefl_mem {env : Env} {fs : List Field}
+    (h : Fields.taggedDefaultsRefl env fs = true) :
+    ∀ f ∈ fs, Field.taggedDefaultsRefl env f = true := by
+  induction fs with
+  | nil => intro f hf; cases hf
+  | cons g fs ih =>
+    simp only [Fields.taggedDefaultsRefl, Bool.and_eq_true] at h
+    intro f hf
+    rcases List.mem_cons.mp hf with rfl | hf
+    · exact h.1
+    · exact ih h.2 f hf
+
+/-! ### per-field facts -/
+
+/-- `tagged`: a value equal to the default `d` need not be accepted by the writer -/
+def RW3t (tagged : Bool) (d : Value) (r : Dec Value) (w : Value → Except Err Bytes) : Prop :=
+  ∀ bs v rest, 3 * bs.length < 2 ^ 35 → r bs = .ok (v, rest) →
+    (tagged = true ∧ v.pyEq d = true ∧ rest.length ≤ bs.length)
+      ∨ ∃ b, w v = .ok b ∧ b.length + 3 * rest.length ≤ 3 * bs.length
+
+theorem RW3.toRW3t {r : Dec Value} {w : Value → Except Err Bytes} (tagged : Bool) (d : Value)
+    (h : RW3 r w) : RW3t tagged d r w := fun bs v rest hl hr => Or.inr (h bs v rest hl hr)
+
+theorem RW3t.toRW3 {d : Value} {r : Dec Value} {w : Value → Except Err Bytes}
+    (h : RW3t false d r w) : RW3 r w := by
+  intro bs v rest hl hr
+  rcases h bs v rest hl hr with ⟨h, _⟩ | h
+  · cases h
+  · exact h
+
+theorem RW3t.toRW3d {d : Value} {r : Dec Value} {w : Value → Except Err Bytes}
+    (h : RW3t true d r w) : RW3d d r w := by
+  intro bs v rest hl hr
+  rcases h bs v rest hl hr with ⟨_, h1, h2⟩ | h
+  · exact Or.inl ⟨h1, h2⟩
+  · exact Or.inr h
+
+theorem isSome_ok_re {α} {x : Except Err α} (h : x.toOption.isSome = true) : ∃ a, x = .ok a := by
+  cases x with
+  | error e => simp [Except.toOption] at h
+  | ok a => exact ⟨a, rfl⟩
+
+theorem primFieldReader_eq {env : Env} {m : FieldMeta} {flex opt : Bool} {k : KType} {r : PrimR}
+    (hs : m.schemaFieldType = .ok k) (hr : getReader k flex opt = .ok r) :
+    primFieldReader env m flex opt = r.run env := by
+  unfold primFieldReader
+  rw [hs]
+  simp only [hr]
+
+theorem primFieldReaderT_eq {env : Env} {m : FieldMeta} {flex o tagged : Bool} {k : KType}
+    {r : PrimR} (hs : m.schemaFieldType = .ok k)
+    (hr : getReader k flex (readerOptional env k flex o tagged) = .ok r) :
+    primFieldReaderT env m flex o tagged = r.run env := by
+  unfold primFieldReaderT
+  rw [hs]
+  simp only [hr]
+
+theorem primFieldWriter_eq_re {env : Env} {m : FieldMeta} {flex opt : Bool} {k : KType} {w : PrimW}
+    (hs : m.schemaFieldType = .ok k) (hw : getWriter k flex opt = .ok w) :
+    primFieldWriter env m flex opt = w.run env := by
+  unfold primFieldWriter
+  rw [hs]
+  simp only [hw]
+
+/-- a nullable tagged primitive field: the default is `None` -/
+theorem dflt_none_of_taggedNullDefaults {env : Env} {m : FieldMeta} {l : PyLeaf}
+    (ht : m.tag.isSome = true) (h : Field.taggedNullDefaults (.mk m (.prim l true)) = true) :
+    Field.dflt env (.mk m (.prim l true)) = .none := by
+  obtain ⟨t, htag⟩ : ∃ t, m.tag = some t := Option.isSome_iff_exists.mp ht
+  simp only [Field.taggedNullDefaults, htag, Bool.and_eq_true] at h
+  have h1 := h.1
+  unfold Field.dflt
+  rw [Field.taggedDefault]
+  split at h1
+  · rename_i hd
+    rw [hd]
+    rfl
+  · cases h1
+
+theorem dflt_refl_of_taggedDefaultsRefl {env : Env} {f : Field} {t : Nat}
+    (ht : f.tagNat = some t) (h : Field.taggedDefaultsRefl env f = true) :
+    (Field.dflt env f).pyEq (Field.dflt env f) = true := by
+  cases f with
+  | mk m sh =>
+    obtain ⟨t', htag⟩ : ∃ t', m.tag = some t' :=
+      Option.isSome_iff_exists.mp (tagNat_some ht)
+    simp only [Field.taggedDefaultsRefl, htag, Bool.and_eq_true] at h
+    exact h.1
+
+theorem find_unique {fs : List Field} (hn : (fs.filterMap Field.tagNat).Nodup) {f : Field}
+    (hf : f ∈ fs) {t : Nat} (ht : f.tagNat = some t) :
+    fs.find? (fun g => decide (g.tagNat = some t)) = some f := by
+  induction fs with
+  | nil => cases hf
+  | cons g fs ih =>
+    rw [List.find?_cons]
+    by_cases hg : g.tagNat = some t
+    · simp only [hg, decide_true]
+      rcases List.mem_cons.mp hf with rfl | hf
+      · rfl
+      · exfalso
+        rw [List.filterMap_cons, hg] at hn
+        have hmem : t ∈ fs.filterMap Field.tagNat := List.mem_filterMap.mpr ⟨f, hf, ht⟩
+        exact (List.nodup_cons.mp hn).1 hmem
+    · simp only [hg, decide_false]
+      rcases List.mem_cons.mp hf with rfl | hf
+      · exact absurd ht hg
+      · apply ih _ hf
+        rw [List.filterMap_cons] at hn
+        split at hn
+        · exact hn
+        · exact (List.nodup_cons.mp hn).2
+
+/-- the writer and the default of the field carrying tag `t` -/
+def wOf (env : Env) (flex rh : Bool) (fs : List Field) (t : Nat) : Value → Except Err Bytes :=
+  match fs.find? (fun g => decide (g.tagNat = some t)) with
+  | some f => Field.write env flex rh true f
+  | none => fun _ => .error .unspecified
+
+def dOf (env : Env) (fs : List Field) (t : Nat) : Value :=
+  match fs.find? (fun g => decide (g.tagNat = some t)) with
+  | some f => Field.dflt env f
+  | none => .none
+
+/-! ### the shapes -/
+
+theorem Shape.prim_re (env : Env) (ht : env.time = TimeCfg.repaired) (hfl : FloatExact)
+    (flex : Bool) (m : FieldMeta) (l : PyLeaf) (o : Bool)
+    (hwf : Shape.wf env flex m (.prim l o) = true)
+    (hnd : Field.taggedNullDefaults (.mk m (.prim l o)) = true) :
+    RW3t m.tag.isSome (Field.dflt env (.mk m (.prim l o)))
+      (Shape.read env flex m.tag.isSome m (.prim l o))
+      (Shape.write env flex m.tag.isSome m (.prim l o)) := by
+  simp only [Shape.wf] at hwf
+  split at hwf
+  · rename_i k hk
+    simp only [Bool.and_eq_true] at hwf
+    obtain ⟨⟨⟨⟨hl, _⟩, _⟩, hr⟩, hw⟩ := hwf
+    have hs := schemaFieldType_ok m k l hk hl
+    obtain ⟨r, hr⟩ := isSome_ok_re hr
+    obtain ⟨w, hw⟩ := isSome_ok_re hw
+    simp only [Shape.read, Shape.write]
+    rw [primFieldReaderT_eq hs hr, primFieldWriter_eq_re hs hw]
+    by_cases hsame : readerOptional env k flex o m.tag.isSome = (!m.tag.isSome && o)
+    · rw [hsame] at hr
+      exact (prim_pair env ht hfl k flex _ _ (Or.inl rfl) r w hr hw).toRW3.toRW3t _ _
+    · have hcase : m.tag.isSome = true ∧ o = true
+          ∧ readerOptional env k flex o m.tag.isSome = true := by
+        revert hsame
+        unfold readerOptional
+        cases m.tag.isSome <;> cases o <;> cases env.nullableTaggedReader <;>
+          cases (getReader k flex true).toOption.isSome <;> simp
+      obtain ⟨hT, ho, hR⟩ := hcase
+      subst ho
+      rw [hR] at hr
+      rw [hT] at hw ⊢
+      simp only [Bool.not_true, Bool.false_and] at hw
+      have hmix := prim_pair_mixed env ht hfl k flex r w hr hw
+      have hd := dflt_none_of_taggedNullDefaults (env := env) hT hnd
+      intro bs v rest _ hrd
+      rcases hmix bs v rest hrd with ⟨hv, hle⟩ | ⟨b, hb, hle⟩
+      · left
+        refine ⟨rfl, ?_, hle⟩
+        rw [hv, hd]; rfl
+      · right
+        exact ⟨b, hb, by omega⟩
+  · cases hwf
+
+theorem Shape.primArr_re (env : Env) (ht : env.time = TimeCfg.repaired) (hfl : FloatExact)
+    (flex : Bool) (m : FieldMeta) (l : PyLeaf) (e a : Bool)
+    (hwf : Shape.wf env flex m (.primArr l e a) = true) :
+    RW3 (Shape.read env flex m.tag.isSome m (.primArr l e a))
+      (Shape.write env flex m.tag.isSome m (.primArr l e a)) := by
+  simp only [Shape.wf] at hwf
+  split at hwf
+  · rename_i k hk
+    simp only [Bool.and_eq_true] at hwf
+    obtain ⟨⟨⟨⟨⟨⟨hl, ha⟩, _⟩, _⟩, hte⟩, hr⟩, hw⟩ := hwf
+    have hs := schemaFieldType_ok m k l hk hl
+    obtain ⟨r, hr⟩ := isSome_ok_re hr
+    obtain ⟨w, hw⟩ := isSome_ok_re hw
+    simp only [Shape.read, Shape.write]
+    rw [primFieldReader_eq hs hr, primFieldWriter_eq_re hs hw]
+    apply array_re
+    apply RW1.toRW3
+    refine prim_pair env ht hfl k flex _ _ ?_ r w hr hw
+    revert hte ha
+    cases m.tag.isSome <;> cases e <;> cases a <;> simp
+  · cases hwf
+
+/-! ### the induction -/
+
+theorem Schema.reencodable_aux (env : Env) (ht : env.time = TimeCfg.repaired) (hfl : FloatExact) :
+    ∀ (s : Schema), s.wf env = true → s.taggedNullDefaults = true →
+      s.taggedDefaultsRefl env = true → RW3 (s.read env) (s.write env) := by
+  apply Schema.induct3
+    (PS := fun s => s.wf env = true → s.taggedNullDefaults = true →
+      s.taggedDefaultsRefl env = true → RW3 (s.read env) (s.write env))
+    (PF := fun f => ∀ flex rh, Field.wf env flex rh f = true → f.taggedNullDefaults = true →
+      f.taggedDefaultsRefl env = true →
+      RW3t f.isTagged (Field.dflt env f) (Field.read env flex rh f.isTagged f)
+        (Field.write env flex rh f.isTagged f))
+    (PSh := fun sh => ∀ flex m, Shape.wf env flex m sh = true →
+      Field.taggedNullDefaults (.mk m sh) = true → Shape.taggedDefaultsRefl env sh = true →
+      RW3t m.tag.isSome (Field.dflt env (.mk m sh)) (Shape.read env flex m.tag.isSome m sh)
+        (Shape.write env flex m.tag.isSome m sh))
+  · -- Schema
+    intro nm flex rh fs ih hwf hnd hdr
+    simp only [Schema.wf, Bool.and_eq_true] at hwf
+    obtain ⟨⟨hwfs, _⟩, hdup⟩ := hwf
+    simp only [Schema.taggedNullDefaults] at hnd
+    simp only [Schema.taggedDefaultsRefl] at hdr
+    have hnodup : (fs.filterMap Field.tagNat).Nodup := by
+      simpa [dupTags] using hdup
+    have hPF : ∀ f ∈ fs, RW3t f.isTagged (Field.dflt env f)
+        (Field.read env flex rh f.isTagged f) (Field.write env flex rh f.isTagged f) :=
+      fun f hf => ih f hf flex rh (Fields.wf_mem hwfs hf)
+        (Fields.taggedNullDefaults_mem hnd f hf) (Fields.taggedDefaultsRefl_mem hdr f hf)
+    have hU : ∀ f ∈ fs, f.isTagged = false →
+        RW3 (Field.read env flex rh false f) (Field.write env flex rh false f) := by
+      intro f hf hft
+      have := hPF f hf
+      rw [hft] at this
+      exact this.toRW3
+    intro bs v rest hlen hr
+    simp only [Schema.read] at hr
+    obtain ⟨⟨us, r1⟩, h1, h2⟩ := bind_ok hr
+    simp only at h2
+    cases flex with
+    | false =>
+      simp only [Bool.not_false, if_true, pure, Except.pure] at h2
+      injection h2 with h2; injection h2 with h2 h3; subst h2 h3
+      obtain ⟨a, ha, hla⟩ := readUntagged_re env false rh [] fs hU bs us r1 hlen h1
+      refine ⟨a, ?_, hla⟩
+      simp only [Schema.write]
+      rw [ha]
+      rfl
+    | true =>
+      simp only [Bool.not_true, Bool.false_eq_true, if_false] at h2
+      obtain ⟨⟨n, r2⟩, h3, h4⟩ := bind_ok h2
+      simp only at h4
+      obtain ⟨⟨acc, r3⟩, h5, h6⟩ := bind_ok h4
+      simp only [pure, Except.pure] at h6
+      injection h6 with h6; injection h6 with h6 h7; subst h6 h7
+      obtain ⟨a, ha, hla⟩ := readUntagged_re env true rh acc fs hU bs us r1 hlen h1
+      have hc := decVarint_consumed h3
+      have hnlt := decVarint_lt h3
+      rw [pow128_5] at hnlt
+      -- the loop
+      have H : ∀ t e, lookupTagged (Fields.taggedPlan env true rh fs) t = some e →
+          RW3d (dOf env fs t) e.read (wOf env true rh fs t) := by
+        intro t e he
+        rw [lookupTagged_plan] at he
+        cases hfind : fs.find? (fun g => decide (g.tagNat = some t)) with
+        | none => rw [hfind] at he; cases he
+        | some f =>
+          rw [hfind] at he
+          simp only [Option.map_some, Option.some.injEq] at he
+          subst he
+          have hfm := List.mem_of_find?_eq_some hfind
+          have hft : f.tagNat = some t := by simpa using List.find?_some hfind
+          have hit : f.isTagged = true := by rw [Field.isTagged_eq, hft]; rfl
+          have := hPF f hfm
+          rw [hit] at this
+          have hw : wOf env true rh fs t = Field.write env true rh true f := by
+            simp only [wOf, hfind]
+          have hd : dOf env fs t = Field.dflt env f := by
+            simp only [dOf, hfind]
+          rw [hw, hd]
+          exact this.toRW3d
+      obtain ⟨hgood, hacclen, hsum⟩ := readTaggedLoop_re env.skipUnknownTags _ _ _ H n r2 [] acc r3
+        (by omega) h5 (by intro a ha; cases ha)
+      -- the writer's items
+      have hfields : ∀ f ∈ fs, ∀ t, f.tagNat = some t →
+          Field.write env true rh true f = wOf env true rh fs t ∧ Field.dflt env f = dOf env fs t
+            ∧ (dOf env fs t).pyEq (dOf env fs t) = true := by
+        intro f hf t hft
+        have hfind := find_unique hnodup hf hft
+        have hw : wOf env true rh fs t = Field.write env true rh true f := by
+          simp only [wOf, hfind]
+        have hd : dOf env fs t = Field.dflt env f := by
+          simp only [dOf, hfind]
+        rw [hw, hd]
+        exact ⟨rfl, rfl, dflt_refl_of_taggedDefaultsRefl hft (Fields.taggedDefaultsRefl_mem hdr f hf)⟩
+      obtain ⟨items, hi, hflat, hcount⟩ := taggedItems_re env true rh _ _ acc hgood fs hfields us
+      have hflat' := Nat.le_trans hflat (foundSum_le _ acc _ hnodup)
+      have hcount' := Nat.le_trans hcount (foundSum_le _ acc _ hnodup)
+      rw [sumBy_one] at hcount'
+      obtain ⟨hsl, hsf⟩ := sortByTag_length_re items
+      simp only [sumBy, List.length_nil] at hsum hacclen
+      have hcnt : (sortByTag items).length ≤ n := by omega
+      have hcntlt : (sortByTag items).length < 2 ^ 35 := by omega
+      have hvl := encVarint_length_mono hcnt
+      refine ⟨a ++ encVarint (sortByTag items).length ++ flattenItems (sortByTag items), ?_, ?_⟩
+      · simp only [Schema.write]
+        rw [ha, ok_bind_re]
+        simp only [Bool.not_true, Bool.false_eq_true, if_false]
+        rw [hi, ok_bind_re, uvarintCtor_nat _ rfl hcntlt]
+        rfl
+      · simp only [List.length_append]
+        omega
+  · -- Field
+    intro m sh ih flex rh hwf hnd hdr
+    obtain ⟨_, hsh, _⟩ := Field.wf_elim hwf
+    have hdr' : Shape.taggedDefaultsRefl env sh = true := by
+      simp only [Field.taggedDefaultsRefl, Bool.and_eq_true] at hdr
+      exact hdr.2
+    show RW3t m.tag.isSome (Field.dflt env (.mk m sh))
+      (Field.read env flex rh m.tag.isSome (.mk m sh)) (Field.write env flex rh m.tag.isSome (.mk m sh))
+    simp only [Field.read, Field.write]
+    cases hc : (rh && m.isClientId)
+    · rw [hc] at hsh
+      simp only [Bool.false_eq_true, if_false] at hsh ⊢
+      exact ih flex m hsh hnd hdr'
+    · simp only [if_true]
+      exact (RW1.toRW3 rw_nullableLegacyString).toRW3t _ _
+  · -- prim
+    intro l o flex m hwf hnd _
+    exact Shape.prim_re env ht hfl flex m l o hwf hnd
+  · -- primArr
+    intro l e a flex m hwf _ _
+    exact (Shape.primArr_re env ht hfl flex m l e a hwf).toRW3t _ _
+  · -- ent
+    intro s o ih flex m hwf hnd hdr
+    simp only [Shape.wf, Bool.and_eq_true] at hwf
+    obtain ⟨⟨_, hto⟩, hwfs⟩ := hwf
+    have hnd' : s.taggedNullDefaults = true := by
+      simp only [Field.taggedNullDefaults, Shape.taggedNullDefaults, Bool.and_eq_true] at hnd
+      exact hnd.2
+    simp only [Shape.taggedDefaultsRefl] at hdr
+    have hs := ih hwfs hnd' hdr
+    apply RW3.toRW3t
+    simp only [Shape.read, Shape.write]
+    cases o
+    · simp only [Bool.and_false, Bool.false_eq_true, if_false]
+      exact hs
+    · have hT : m.tag.isSome = false := by
+        revert hto; cases m.tag.isSome <;> simp
+      rw [hT]
+      simp only [Bool.not_false, Bool.and_self, if_true]
+      exact nullable_re hs
+  · -- entArr
+    intro s a ih flex m hwf hnd hdr
+    simp only [Shape.wf, Bool.and_eq_true] at hwf
+    obtain ⟨⟨_, hwfs⟩, _⟩ := hwf
+    have hnd' : s.taggedNullDefaults = true := by
+      simp only [Field.taggedNullDefaults, Shape.taggedNullDefaults, Bool.and_eq_true] at hnd
+      exact hnd.2
+    simp only [Shape.taggedDefaultsRefl] at hdr
+    have hs := ih hwfs hnd' hdr
+    apply RW3.toRW3t
+    simp only [Shape.read, Shape.write]
+    exact array_re flex hs
+  · -- bad
+    intro flex m hwf
+    simp [Shape.wf] at hwf
+
+/-- **re-encodable** (corrected statement): on a coherent class whose tagged defaults compare
+    equal to themselves, with the repaired time arithmetic, any value the reader returns for any
+    input of fewer than `2^35 / 3` bytes is accepted by the writer, and the re-encoding is at
+    most three times as long as the bytes that were consumed.
+
+    Differences from the statement first proposed, each forced by a counterexample:
+    * `hdr`: a tagged field absent from the wire is assembled to its default `d`; the writer omits
+      it only if `d == d`.  With `d = float('nan')` on a tagged `int32` field the default reaches
+      `write_int32`, which raises (`reencodable_cex_default`).
+    * the length clause: the reader ignores the size prefix of a known tagged field, so the
+      consumed one may be shorter than the minimal encoding of the real size that the writer
+      emits; the re-encoding can be longer than the input (`reencodable_cex_length`, 205 ↦ 206
+      bytes).  Each tagged item grows by at most 4 bytes and consumed at least 2, hence `3 ×`.
+    * `hlen`: because of that growth a payload re-encoded inside an outer tagged field can reach
+      `2^35` bytes (where `uvarint(size)` raises) although fewer than `2^35` were consumed, so
+      the bound on the input has to leave room for it. -/
+theorem Schema.reencodable' (env : Env) (ht : env.time = TimeCfg.repaired) (hfl : FloatExact)
     (s : Schema) (hwf : s.wf env = true) (hnd : s.taggedNullDefaults = true)
-    (bs : Bytes) (hlen : bs.length < 2 ^ 35) (v : Value) (rest : Bytes)
+    (hdr : s.taggedDefaultsRefl env = true)
+    (bs : Bytes) (hlen : 3 * bs.length < 2 ^ 35) (v : Value) (rest : Bytes)
     (h : s.read env bs = .ok (v, rest)) :
-    ∃ b', s.write env v = .ok b' ∧ b'.length + rest.length ≤ bs.length := by
-  sorry
+    ∃ b', s.write env v = .ok b' ∧ b'.length + 3 * rest.length ≤ 3 * bs.length :=
+  Schema.reencodable_aux env ht hfl s hwf hnd hdr bs v rest hlen h
 
 end Kio
